@@ -221,7 +221,7 @@ def rule_WM3(rep, prog):
             if i.op in ("store", "atomicrmw", "cmpxchg") and (prog.fields(i) & frozenset(["data_object", "from", "length", "num_records"])) and \
                i.d.get("ptr", {}).get("sty", "").startswith(("struct.dispatch_data_s", "struct.range_record_s")):
                 rep.saw(fn)
-                rep.require(rid, i.origin in RECORD_WRITERS, i.loc, i.origin, "unclassified-record-writer:%s" % i.origin,
+                rep.classified(rid, i.origin, i.origin in RECORD_WRITERS, i.loc, i.origin, "unclassified-record-writer:%s" % i.origin,
                             "%s writes the record table of a dispatch_data object but is not a constructor: data objects must be immutable once returned" % i.origin,
                             sample={"writer": i.origin, "class": RECORD_WRITERS.get(i.origin)})
     callers = sorted({f.name for f in prog.all_functions() for c in f.calls("_dispatch_data_destroy_buffer")})
